@@ -1033,11 +1033,11 @@ def main():
         ty = val_type(v)
         consts[name] = ty
         lines.append(f"Definition {name} : {cty(ty)} :=\n  {coq_val(v)}.\n")
-    write_if_changed(os.path.join(out, "Data.v"), HEADER.format(extra="") + "\n".join(lines))
+    write_if_changed(os.path.join(out, "GData.v"), HEADER.format(extra="") + "\n".join(lines))
 
     # ---------------- functions
     funs = {"table_entry_size": ("table_entry_size", ["bytes", "bytes"], ("total", "int"))}
-    imp = "From HV Require Import Gen.Data.\n"
+    imp = "From HV Require Import Gen.GData.\n"
 
     def emit(fname, items, extra):
         defs = []
@@ -1080,7 +1080,7 @@ def main():
         ps = " ".join(f"({a.arg} : {cty(env[a.arg])})" for a in fd.args.args)
         return f"Definition table_entry_size {ps} : Z :=\n{t}."
 
-    emit("Int.v", [("hpack.encode_integer", fun(trees["hpack"], "encode_integer")),
+    emit("GInt.v", [("hpack.encode_integer", fun(trees["hpack"], "encode_integer")),
                    ("hpack.decode_integer", fun(trees["hpack"], "decode_integer"))], imp)
 
     tmeth = {}
@@ -1111,9 +1111,9 @@ def main():
     for nm in ("_shrink", "add", "get_by_index", "search", "maxsize"):
         items.append((f"table.HeaderTable.{nm}",
                       fun(trees["table"], nm, "HeaderTable", coqname[nm], nm in rw, tmeth)))
-    emit("Table.v", items, imp)
+    emit("GTable.v", items, imp)
 
-    emit("Huff.v", [("huffman.HuffmanEncoder.encode",
+    emit("GHuff.v", [("huffman.HuffmanEncoder.encode",
                      fun(trees["huffman"], "encode", "HuffmanEncoder", "HuffmanEncoder_encode", False, {})),
                     ("huffman_table.decode_huffman", fun(trees["huffman_table"], "decode_huffman"))], imp)
 
